@@ -707,7 +707,8 @@ def describe():
                 "directory, or nesting depth >= 2, or a subroutine is called at least twice)",
         "components": {"real": ["blackbird (working tree)", "antlr4 FileStream", "kernel file system (tmpfs)",
                                 "os.chdir / os.path", "sympy lambdify (template instantiation)"],
-                       "stubs": [], "interposers": ["builtins.open wrapper (fault injection only)"],
+                       "stubs": [], "interposers": ["builtins.open wrapper (errno and short-read faults only)",
+                                                     "rewrite + restore of simulated files around a load (torn / flipped content)"],
                        "reference_model": "bbsim/model07.py (no blackbird import)"},
         "assumptions": ["constructs the statement of C07 leaves open are not generated (registers inside "
                         "included programs, one program name declared by two included files, '..' after a "
